@@ -18,11 +18,12 @@ class C12a(Obligation):
     assumptions = (
         'sys.path handed to the loader: <=3 arbitrary strings; environment base path: <=2 arbitrary strings',
         'compiled.load_module (the only function that calls __import__) is a stub recording its sys_path',
+        'the project is a real Project (its _get_base_sys_path is executed) with or without an explicit sys_path; the environment path has no empty entry',
     )
 
     def configs(self, tier):
         ns = ((1, 1), (2, 1), (2, 2), (3, 2)) if tier == 'quick' else ((1, 1), (2, 2), (3, 2), (4, 2), (3, 3))
-        return [dict(n=n, b=b, given=g) for n, b in ns for g in (True, False)]
+        return [dict(n=n, b=b, given=g, explicit=e) for n, b in ns for g in (True, False) for e in (False, True)]
 
     def scenario(self, ctx, cfg):
         sys_path = [ctx.str('entry%d' % i, maxlen=4) for i in range(cfg['n'])]
@@ -35,8 +36,21 @@ class C12a(Obligation):
             return 'MODULE'
 
         ctx.patch(jimports.compiled, 'load_module', load_module)
-        project = Obj(_load_unsafe_extensions=unsafe, _get_base_sys_path=lambda state: list(base))
-        state = Obj(project=project, get_sys_path=lambda: list(sys_path))
+        # a real Project: the whitelist must be the ENVIRONMENT's path even when the user configured sys_path
+        from jedi.api.project import Project
+        from obligations.c20 import raw
+        project = Project.__new__(Project)
+        project._pysym_holder = True
+        project._load_unsafe_extensions = unsafe
+        project._sys_path = list(sys_path) if cfg.get('explicit') else None
+        project._smart_sys_path = False
+        project.added_sys_path = []
+        real_base = raw(Project._get_base_sys_path)
+        project._get_base_sys_path = lambda state: ctx.run(real_base, project, state)
+        state = Obj(project=project, get_sys_path=lambda: list(sys_path),
+                    environment=Obj(get_sys_path=lambda: list(base)))
+        for b in base:
+            ctx.assume(b != '')
         out = ctx.call(jimports._load_builtin_module, state, ('pkg', 'mod'),
                        list(sys_path) if cfg['given'] else None)
         ctx.check(out.exc is None and out.value == 'MODULE', 'loads through compiled.load_module')
